@@ -543,7 +543,7 @@ def plan(tier, verif_seed):
     fs = fault_specs(tier, verif_seed)
     for i in range(0, len(fs), 4):
         tasks.append({'id': 'faults-%d' % i, 'specs': fs[i:i + 4]})
-    n = 60 if tier == 'quick' else 2000
+    n = 100 if tier == 'quick' else 2000
     n = int(os.environ.get('VERIF_C14_RUNS', n))
     seeds = [core.H(verif_seed, 'C14', j) for j in range(n)]
     for j in range(0, n, 5):
